@@ -1,6 +1,6 @@
 \* evaluate given histories with the as-built switches (pinned tree: flatten works in place)
 CONSTANTS DeepCopyRebindsParents = FALSE CopyHookBoundToCopy = FALSE FlattenCopiesTop = FALSE
-          Universe = "full" MaxTrees = 4 MaxOps = 1000000
+          Lib = "flat" Universe = "full" MaxTrees = 4 MaxOps = 1000000
 INIT TInit
 NEXT TNext
 VIEW TView
